@@ -411,3 +411,106 @@ def spelling_text(sp):
     if sp["form"] == "cli":
         return "signac find " + " ".join(repr(t) for t in render_tokens(sp["toks"]))
     return "find_jobs(%r)" % " ".join(render_tokens(sp["toks"], compact=True))
+
+
+# ---- scale tier (C06): large corpora with > 64 distinct values under one key ------------------------------------
+
+
+def scale_corpus(rnd, n):
+    """n jobs (70..200). sp.k: the job number (n distinct ints). sp.a: > 64 distinct values of mixed type - ints, floats equal
+    to ints held by OTHER jobs, other floats, bools, strings, lists. doc.t: > 64 distinct numbers (ints, equal-valued floats,
+    bools), missing for some jobs. sp.b / sp.n.x: few values. State points are distinct through sp.k."""
+    jobs = []
+    for i in range(n):
+        r = i % 10
+        if i < 66:
+            a = i                                   # 66 distinct ints 0..65
+        elif r in (0, 1, 2):
+            a = float(rnd.randrange(0, 70))        # equal to an int of another job (3.0 vs 3), or a new value
+        elif r == 3:
+            a = rnd.choice([True, False])
+        elif r == 4:
+            a = rnd.randrange(0, 40) + 0.5
+        elif r in (5, 6):
+            a = "s%d" % rnd.randrange(0, 30)
+        elif r == 7:
+            a = [rnd.randrange(0, 5), 1]
+        elif r == 8:
+            a = None
+        else:
+            a = rnd.randrange(60, 90)
+        sp = {"k": i, "b": rnd.randrange(0, 4)}
+        if not (i >= 66 and rnd.random() < 0.1):
+            sp["a"] = a
+        if rnd.random() < 0.4:
+            sp["n"] = {"x": rnd.choice([0, 1, 1.0, True, "ab", None])}
+        doc = {}
+        if rnd.random() < 0.9:
+            j = (i * 7) % n
+            doc["t"] = j if i % 3 == 0 else float(j) if i % 3 == 1 else (j + 0.25 if i % 2 else bool(j % 2))
+        if rnd.random() < 0.3:
+            doc["y"] = rnd.choice(["u", "v", 1])
+        jobs.append((sp, doc))
+    rnd.shuffle(jobs)
+    return jobs
+
+
+def _retype(v):
+    """a value that compares equal but has another numeric type (the cross-type candidates)"""
+    if isinstance(v, bool):
+        return int(v)
+    if isinstance(v, int):
+        return float(v)
+    if isinstance(v, float) and v.is_integer():
+        return int(v)
+    return v
+
+
+def scale_filters(rnd, jobs, count):
+    """a seeded family of atoms and combinations over the many-valued keys; candidates are drawn from the values the corpus
+    holds and from their equal-valued twins of another numeric type"""
+    def atom(path, op, arg):
+        return {"tag": "atom", "path": path, "op": op, "arg": arg, "kids": []}
+
+    def cand(path, retype=0.5):
+        vals = [v for v in _values_at(jobs, path) if not isinstance(v, dict)]
+        v = rnd.choice(vals) if vals and rnd.random() < 0.9 else rnd.choice([0, 1, 300, "zz", 2.5])
+        return _retype(v) if rnd.random() < retype else v
+
+    A, T, K, B = ["sp", "a"], ["doc", "t"], ["sp", "k"], ["sp", "b"]
+    atoms = []
+    for path in (A, T, K):
+        for _ in range(max(2, count // 12)):
+            atoms.append(atom(path, "$in", [cand(path) for _ in range(rnd.randrange(1, 5))]))
+            atoms.append(atom(path, "$nin", [cand(path) for _ in range(rnd.randrange(1, 5))]))
+            atoms.append(atom(path, rnd.choice(["eq", "$eq"]), cand(path)))
+            atoms.append(atom(path, "$ne", cand(path)))
+        atoms.append(atom(path, "$in", [cand(path, 1.0) for _ in range(3)] + [[0, 1]]))
+        atoms.append(atom(path, "$in", []))
+        atoms.append(atom(path, "$type", rnd.choice(["int", "float", "bool", "str", "list", "null"])))
+        atoms.append(atom(path, "$exists", rnd.random() < 0.5))
+    for path in (T, K):          # all-numeric keys: ordering and $near are well-typed
+        for op in ("$gt", "$gte", "$lt", "$lte"):
+            atoms.append(atom(path, op, cand(path)))
+        atoms.append(atom(path, "$near", [cand(path), 0.0, rnd.choice([0.0, 0.5, 2.0])]))
+    atoms.append(atom(B, "$in", [0, 1.0, True]))
+    atoms.append(atom(["sp", "n", "x"], "$in", [1, "ab", None]))
+    atoms.append(atom(["sp", "a"], "$regex", "^s1"))
+    rnd.shuffle(atoms)
+    atoms = atoms[:max(10, (2 * count) // 3)]
+    out = list(atoms)
+    ins = [a for a in atoms if a["op"] in ("$in", "$nin", "eq", "$eq", "$ne")] or atoms
+    while len(out) < count:
+        r = rnd.random()
+        x, y = rnd.choice(ins), rnd.choice(atoms)
+        if r < 0.3:
+            out.append({"tag": "not", "kids": [x]})
+        elif r < 0.55:
+            out.append({"tag": "and", "kids": [x, y]})
+        elif r < 0.8:
+            out.append({"tag": "or", "kids": [x, y]})
+        elif r < 0.9:
+            out.append({"tag": "not", "kids": [{"tag": "or", "kids": [x, y]}]})
+        else:
+            out.append({"tag": "and", "kids": [{"tag": "not", "kids": [x]}, y, rnd.choice(ins)]})
+    return out
